@@ -487,11 +487,15 @@ def main(run):
     from sasmodels.data import empty_data1D
     from sasmodels.direct_model import DirectModel
     model = sas.load("sphere")
-    for kind in ("pinhole", "slit"):
+    for kind in ("pinhole", "slit", "slit-width"):
         q = np.linspace(0.01, 0.2, 12)
         data = empty_data1D(q, resolution=0.07)
         if kind == "slit":
             data.dx = None; data.dxl = np.full(len(q), 0.05); data.dxw = None
+        elif kind == "slit-width":
+            # (the width-only weights do not sum to one - recorded finding K03-slit-width - which is exactly why the
+            #  background must be added AFTER smearing: linearity in scale and background holds regardless)
+            data.dx = None; data.dxl = None; data.dxw = np.full(len(q), 0.005)
         calc = DirectModel(data, model)
         base = calc(radius=60.0, scale=1.0, background=0.0)
         a, b = rng.uniform(0.1, 3), rng.uniform(0.01, 2)
